@@ -1307,6 +1307,9 @@ class ListNode(SyntaxNodeBase):
                     self._shortcuts.append(node)
                     self._nodes.append(node)
             else:
+                # a value that only existed through a shortcut is a plain entry now: it can be padded
+                if isinstance(node, ValueNode) and node.padding is None:
+                    node.never_pad = False
                 self._nodes.append(node)
         end = self._nodes[-1]
         # pop off final shortcut if it's a jump the user left off
@@ -1746,7 +1749,7 @@ class ShortcutNode(ListNode):
                 new_val = 10 ** (begin + spacing * (i + 1))
             else:
                 new_val = begin + spacing * (i + 1)
-            self.append(ValueNode(str(new_val), float))
+            self.append(ValueNode(str(new_val), float, never_pad=True))
         self._begin = begin
         self._end = end
         self._spacing = spacing
